@@ -433,4 +433,60 @@ theorem matcher_correct_header_witness : ¬ HeaderMatcherExact := by
   revert this
   decide
 
+/-! ## Envoy accepts the generated matchers
+
+Envoy's proto constraints (protoc-gen-validate) refuse a StringMatcher with an EMPTY `prefix` or
+`suffix` - a listener carrying one is NACKed as a whole.  The generators never emit one: `*` is
+recognised first (the comment in string.go / header.go).  The harness checks the constraint on the real
+protos of every build (`ValidateAll`, oracle clause `envoy-rejects-config`). -/
+
+/-- A string matcher Envoy accepts: no empty prefix / suffix. -/
+def StrM.accepted : StrM → Bool
+  | .pfx s _ => !s.isEmpty
+  | .sfx s _ => !s.isEmpty
+  | _ => true
+
+theorem stringMatcherWithPrefix_accepted (v pre : Str) : (stringMatcherWithPrefix v pre).accepted = true := by
+  unfold stringMatcherWithPrefix
+  split
+  · rfl
+  · rename_i hstar
+    split
+    · rename_i hp
+      obtain ⟨t, rfl⟩ := (hasPrefix_star_iff v).1 hp
+      split
+      · have : t ≠ [] := fun e => hstar (by rw [e]; rfl)
+        simpa [StrM.accepted] using this
+      · rfl
+    · split
+      · rename_i hs
+        obtain ⟨t, rfl⟩ := (hasSuffix_star_iff v).1 hs
+        have : t ≠ [] := fun e => hstar (by rw [e]; rfl)
+        simp [StrM.accepted, this]
+      · rfl
+
+theorem headerMatcher_accepted (ic : Bool) (k v : Str) :
+    ∀ m, headerMatcherIC ic k v = .header k (some m) → m.accepted = true := by
+  intro m hm
+  unfold headerMatcherIC at hm
+  split at hm
+  · cases hm
+  · rename_i hstar
+    split at hm
+    · rename_i hp
+      obtain ⟨t, rfl⟩ := (hasPrefix_star_iff v).1 hp
+      simp only [Matcher.header.injEq, Option.some.injEq, true_and] at hm
+      subst hm
+      have : t ≠ [] := fun e => hstar (by rw [e]; rfl)
+      simpa [StrM.accepted] using this
+    · split at hm
+      · rename_i hs
+        obtain ⟨t, rfl⟩ := (hasSuffix_star_iff v).1 hs
+        simp only [Matcher.header.injEq, Option.some.injEq, true_and] at hm
+        subst hm
+        have : t ≠ [] := fun e => hstar (by rw [e]; rfl)
+        simp [StrM.accepted, this]
+      · simp only [Matcher.header.injEq, Option.some.injEq, true_and] at hm
+        subst hm; rfl
+
 end IstioModel.C08
